@@ -28,16 +28,24 @@ func c14(c *ctx) {
 		ins []string
 	}
 	var pcs []*pc
+	variantOf := map[int]variant{}
 	for i := 0; i < n; i++ {
 		alpha := []rune("abc\né😀")
 		g := gram.Backtracky(r, alpha)
 		if i%2 == 0 {
 			gram.Finish(g, &gram.Profile{EnterProbes: true})
 		}
+		// a third of the parser types is generated with -noast (inline actions reading the captured text)
+		v := vPlain
 		cs := &gcase{id: i, g: g}
-		pkg := pkgName(i, vPlain)
+		if i%3 == 2 {
+			v = vNoast
+			cs.inline = true
+		}
+		variantOf[i] = v
+		pkg := pkgName(i, v)
 		cs.text = gram.PrintGrammar(g, cs.printOpts(pkg, nil))
-		cp.Add(&corpus.Job{Pkg: pkg, Text: cs.text, RuleNames: ruleNames(g), HasActions: g.Count(gram.KAction) > 0})
+		cp.Add(&corpus.Job{Pkg: pkg, Text: cs.text, Opts: v.opts, NoAST: v.noast, RuleNames: ruleNames(g), HasActions: g.Count(gram.KAction) > 0})
 		pcs = append(pcs, &pc{cs, tractable(g, "R0", gram.Inputs(r, g, "R0", 6, alpha))})
 	}
 	if err := cp.Build(); err != nil {
@@ -54,10 +62,11 @@ func c14(c *ctx) {
 	}
 	var sks []sk
 	for _, p := range pcs {
-		pkg := pkgName(p.cs.id, vPlain)
+		pkg := pkgName(p.cs.id, variantOf[p.cs.id])
 		for k, in := range p.ins {
 			for _, memo := range []bool{true, false} {
-				seq = append(seq, corpus.Req{Pkg: pkg, Entry: -1, In: []byte(in), Memo: memo, Pretty: k%2 == 0})
+				// Size 4 with option values shared by all instances of the type: what "var opts = ..." at package level does
+				seq = append(seq, corpus.Req{Pkg: pkg, Entry: -1, In: []byte(in), Memo: memo, Pretty: k%2 == 0, Size: 4 * (k % 2), Shared: k%3 != 0})
 				sks = append(sks, sk{p, k, memo, false})
 			}
 		}
@@ -65,7 +74,7 @@ func c14(c *ctx) {
 		for _, in := range p.ins {
 			hb = append(hb, []byte(in))
 		}
-		seq = append(seq, corpus.Req{Pkg: pkg, Mode: "history", Entry: -1, Hist: hb, Memo: true})
+		seq = append(seq, corpus.Req{Pkg: pkg, Mode: "history", Entry: -1, Hist: hb, Memo: true, Size: 64, Shared: true})
 		sks = append(sks, sk{p, 0, true, true})
 	}
 	// sequential runs use one worker so that nothing else runs in that process
@@ -76,7 +85,7 @@ func c14(c *ctx) {
 	want := map[string]string{} // sub-request identity -> sequential observable
 	ident := func(q corpus.Req) string {
 		b, _ := json.Marshal(q.Hist)
-		return fmt.Sprintf("%s|%s|%q|%v|%v|%s", q.Pkg, q.Mode, q.In, q.Memo, q.Pretty, b)
+		return fmt.Sprintf("%s|%s|%q|%v|%v|%d|%v|%s", q.Pkg, q.Mode, q.In, q.Memo, q.Pretty, q.Size, q.Shared, b)
 	}
 	fullKey := func(r *corpus.Res) string {
 		if r.Hist != nil {
@@ -172,7 +181,7 @@ func c14(c *ctx) {
 	if c.run.Counters["calls_overlapping_another_goroutine"]*4 < c.run.Counters["concurrent_calls"] {
 		c.run.Incon("fewer than a quarter of the concurrent calls actually overlapped another goroutine")
 	}
-	c.run.Rule = "cases: parser types generated from shared-prefix grammars (captures, actions, memo revisits, half with rule-entry observers); each (parser, input, memo on/off, Pretty on/off) and a long-lived Reset history are first run alone; then the same requests are run from 2, 8 or 32 goroutines at once (same type with same and different inputs; 8 different types interleaved), each goroutine on its own instances, Init/Parse/Execute/AST/SprintSyntaxTree/Error, under the race detector. The goroutines share nothing with the monitor while running (results merged after join; overlap computed afterwards from monotonic timestamps). " +
+	c.run.Rule = "cases: parser types generated from shared-prefix grammars (captures, actions, memo revisits, half with rule-entry observers; a third generated with -noast, whose inline actions read the captured text); instances are initialised with fresh option values or with option values shared by all instances of the type (Size 4/64, DisableMemoize, Pretty); each (parser, input, memo on/off, Pretty on/off) and a long-lived Reset history are first run alone; then the same requests are run from 2, 8 or 32 goroutines at once (same type with same and different inputs; 8 different types interleaved), each goroutine on its own instances, Init/Parse/Execute/AST/SprintSyntaxTree/Error, under the race detector. The goroutines share nothing with the monitor while running (results merged after join; overlap computed afterwards from monotonic timestamps). " +
 		"Oracle: every concurrent result equals the result alone (verdict, tokens, tree, printed tree, trace, observer log, error token, message); zero race reports. " +
 		"distinct_nontrivial = distinct (parser, input, config, goroutine count) executed in a batch in which calls of different goroutines overlapped in time."
 	c.run.Assume("schedules are those the Go scheduler produced on this machine (GOMAXPROCS = all cores) with Gosched perturbation; not replayable bit for bit")
